@@ -257,10 +257,11 @@ def solicit (xid : Bytes) (time : Nat) (hw : Bytes) (mods : List Mod6) (stream :
   call6 (newSolicit xid time hw mods) stream (some (isMessageType6 mtAdvertise []))
 
 open Dhcp.V6 in
-/-- nclient6 `Request(ctx, advertise, modifiers...)`: nil matcher — the first
-routed message whatever its type -/
+/-- nclient6 `Request(ctx, advertise, modifiers...)`: answer = first REPLY
+(`IsMessageType(MessageTypeReply)`; before /repo commit 80184de the matcher was
+nil and the first routed message of any type was returned) -/
 def request6 (xid : Bytes) (adv : Msg6) (mods : List Mod6) (stream : List Msg6) : Run6 :=
-  call6 (newRequestFromAdvertise xid adv mods) stream none
+  call6 (newRequestFromAdvertise xid adv mods) stream (some (isMessageType6 mtReply []))
 
 open Dhcp.V6 in
 /-- `RapidSolicit(ctx, modifiers...)`: SOLICIT built with
